@@ -1,6 +1,6 @@
 (* Pinned statements of C07 (generated once by tools/mkpins.py from coq/props/C07.v, then committed). *)
 From DV Require Import Model.Base Model.Parser Model.Header Model.Readers Model.Uncompress Model.Compress
-  Model.Renamer Proofs.Hoare Proofs.CompressFrame props.C07.
+  Model.Renamer Spec.NameSpec Proofs.Hoare Proofs.CompressFrame Proofs.RenameSpec props.C07.
 Check (C07_replace_raw_shape : forall name target source sfx r,
   replace_raw name target source sfx = Ok (Some r) ->
   length source <= length name /\
@@ -8,3 +8,19 @@ Check (C07_replace_raw_shape : forall name target source sfx r,
   length name - length source + length target <= 255 /\
   (sfx = false -> length name = length source)).
 Print Assumptions C07_replace_raw_shape.
+Check (C07_replaces_matching_suffix : forall (nl sl tl : list bytes) (sfx : bool),
+  Forall lab nl -> Forall lab sl -> Forall lab tl -> sl <> [] -> tl <> [] ->
+  forall pre rest, nl = pre ++ rest -> ci_labels rest sl -> sfx = true \/ pre = [] ->
+  replace_raw (wire_of_labels nl) (wire_of_labels tl) (wire_of_labels sl) sfx =
+    if DNS_MAX_HOSTNAME_LEN <? length (labels_flat pre) + length (wire_of_labels tl) then Err InvalidName
+    else Ok (Some (wire_of_labels (pre ++ tl)))).
+Print Assumptions C07_replaces_matching_suffix.
+Check (C07_keeps_other_names : forall (nl sl tl : list bytes) (sfx : bool),
+  Forall lab nl -> Forall lab sl -> Forall lab tl -> sl <> [] -> tl <> [] ->
+  (forall pre rest, nl = pre ++ rest -> ci_labels rest sl -> ~ (sfx = true \/ pre = [])) ->
+  replace_raw (wire_of_labels nl) (wire_of_labels tl) (wire_of_labels sl) sfx = Ok None).
+Print Assumptions C07_keeps_other_names.
+Check (C07_identity : forall nl sl, Forall lab nl -> Forall lab sl -> sl <> [] -> ci_labels nl sl ->
+  length (wire_of_labels sl) <= 255 ->
+  replace_raw (wire_of_labels nl) (wire_of_labels sl) (wire_of_labels sl) false = Ok (Some (wire_of_labels sl))).
+Print Assumptions C07_identity.
